@@ -173,7 +173,7 @@ func enumSources(c *ev.Ctx, heavy bool, emit srcEmit) {
 	dists := []int{1, 4, 8, 16, 255, 256, 65534, 65535, 65536, 65537, 131072}
 	reps := []int{4, 5, 19, 20, 274}
 	tails := []int{0, 5, 11, 12, 13}
-	pres := []int{0, 1, 15, 65531}
+	pres := []int{0, 1, 15, 270, 526, 65531}
 	if c.Thorough() {
 		dists = []int{1, 2, 3, 4, 5, 7, 8, 15, 16, 17, 18, 19, 254, 255, 256, 65533, 65534, 65535, 65536, 65537, 65538, 131070, 131071, 131072, 131073, 131074}
 		reps = []int{3, 4, 5, 8, 12, 18, 19, 20, 33, 273, 274, 275, 529}
@@ -441,7 +441,7 @@ func (e *blockEnv) checkOne(prop string, k blockCase, src []byte) (out []byte, n
 	return out, n, nil
 }
 
-func geometries(prop string, n, bound int, thorough bool) []geom {
+func geometries(prop string, n, bound int, thorough bool, extra ...int) []geom {
 	switch prop {
 	case "C01", "C14":
 		return []geom{{bound, 0}, {bound + 7, 9}}
@@ -456,6 +456,14 @@ func geometries(prop string, n, bound int, thorough bool) []geom {
 	}
 	// C11
 	var lens []int
+	for _, e := range extra {
+		// destination lengths around the end of a long literal run (token + length bytes + literals)
+		for d := -2; d <= 4; d++ {
+			if l := e + d; l >= 0 {
+				lens = append(lens, l)
+			}
+		}
+	}
 	if n <= 64 && (thorough || n <= 24) {
 		for l := 0; l <= bound+2; l++ {
 			lens = append(lens, l)
@@ -515,7 +523,11 @@ func blockEnumRun(prop string) func(c *ev.Ctx) {
 			if prop == "C11" && big && s.Fam == "S4" && len(src) > 200000 {
 				return // geometry sweeps over MiB-sized sources add nothing over S3
 			}
-			for _, g := range geometries(prop, len(src), bound, c.Thorough()) {
+			var litEnds []int
+			if prop == "C11" && s.Fam == "S3" && s.Pre >= 15 && s.Pre < 4096 {
+				litEnds = []int{s.Pre, s.Pre + 12} // zeros filler: the first match starts right at / shortly after the marker
+			}
+			for _, g := range geometries(prop, len(src), bound, c.Thorough(), litEnds...) {
 				keep = keep[:0]
 				var first = map[string]int{}
 				for _, cfg := range cfgs {
